@@ -827,8 +827,6 @@ def inline_new_constants(mod, pinned, repo_lookup=None):
                     if src is not None and al.name in src:
                         imported[nm] = src[al.name]
     n = 0
-    if not consts and not imported:
-        return 0
     shadow = {}
     for nm in imported:
         cnt = 0
@@ -867,6 +865,42 @@ def inline_new_constants(mod, pinned, repo_lookup=None):
             _place([new], x)
             if _replace_expr(x, new):
                 n += 1
+    # class-level: a literal hoisted into a new name of the class body, used by later statements of the same class body
+    ctop = pinned.get("__classtop__") or {}
+    for c in [x for x in mod.tree.body if isinstance(x, ast.ClassDef)]:
+        known = ctop.get(c.name)
+        if known is None:
+            continue
+        cnt = {}
+        for st in c.body:
+            if isinstance(st, (ast.Assign, ast.AnnAssign, ast.AugAssign)):
+                for tg in (st.targets if isinstance(st, ast.Assign) else [st.target]):
+                    for x in ast.walk(tg):
+                        if isinstance(x, ast.Name):
+                            cnt[x.id] = cnt.get(x.id, 0) + 1
+        ctab = {}
+        for st in c.body:
+            if isinstance(st, ast.Assign) and len(st.targets) == 1 and isinstance(st.targets[0], ast.Name):
+                nm = st.targets[0].id
+                if nm not in known and cnt.get(nm) == 1 and not nm.startswith("__") and _const_expr(st.value, ctab):
+                    ctab[nm] = st.value
+        if not ctab:
+            continue
+        for st in c.body:
+            if isinstance(st, FUNC_TYPES + (ast.ClassDef,)):
+                continue
+            if isinstance(st, ast.Assign) and len(st.targets) == 1 and isinstance(st.targets[0], ast.Name) and st.targets[0].id in ctab:
+                continue
+            for x in list(ast.walk(st)):
+                if isinstance(x, ast.Name) and isinstance(x.ctx, ast.Load) and x.id in ctab:
+                    v = ctab[x.id]
+                    for _ in range(6):
+                        if isinstance(v, ast.Name) and v.id in ctab:
+                            v = ctab[v.id]
+                    new = _clone(v)
+                    _place([new], x)
+                    if _replace_expr(x, new):
+                        n += 1
     if n:
         set_parents(mod.tree)
     return n
